@@ -5,6 +5,8 @@ T = "pydrobert.torch.training"
 DL = "pydrobert.torch._dataloaders"
 DS = "pydrobert.torch._datasets"
 FE = "pydrobert.torch._feats"
+PA = "pydrobert.torch._parsing"
+CL = "pydrobert.torch.command_line"
 
 MUTANTS = [
     # ---- C16 -------------------------------------------------------------------------
@@ -182,5 +184,83 @@ MUTANTS = [
     ]),
     Mutant("c18-interim-store-resets", "C18", FE, [
         ("        if delete_stats:\n            self.sum = self.sumsq = self.count = None", "        self.sum = self.sumsq = self.count = None"),
+    ]),
+    # ---- C11 -------------------------------------------------------------------------
+    Mutant("c11-read-trn-unordered", "C11", PA, [
+        ("            transcripts = pool.imap(\n", "            transcripts = pool.imap_unordered(\n"),
+    ]),
+    Mutant("c11-write-ctm-path-drops-utt2wc", "C11", PA, [
+        ("            return write_ctm(transcripts, ctm, utt2wc)", "            return write_ctm(transcripts, ctm)"),
+    ]),
+    Mutant("c11-revert-D10-string-sort", "C11", PA, [
+        ("            for x in sorted(tier.simple_transcript, key=lambda x: float(x[0]))\n        ]\n    i = 0", "            for x in sorted(tier.simple_transcript)\n        ]\n    i = 0"),
+    ]),
+    Mutant("c11-revert-D3-precision", "C11", PA, [
+        ("                transcript, tg, start_time, end_time, tier_name, precision=precision\n", "                transcript, tg, start_time, end_time, tier_name\n"),
+    ]),
+    Mutant("c11-write-trn-drops-third-alternate", "C11", PA, [
+        ('        ret = "{ " + "/ ".join(ret) + "} "', '        ret = "{ " + "/ ".join(ret[:2]) + "} "'),
+    ]),
+    Mutant("c11-token-times-two-frames-off", "C11", PA, [
+        ("                        end = (1000 * end + 0.5 * frame_shift_ms) // frame_shift_ms", "                        end = (1000 * end + 2.5 * frame_shift_ms) // frame_shift_ms"),
+    ]),
+    Mutant("c11-read-ctm-end-is-duration", "C11", PA, [
+        ("            end = start + float(dur)", "            end = float(dur)"),
+    ]),
+    Mutant("c11-read-trn-file-branch-ignores-chunks-last-line", "C11", PA, [
+        ("                _trn_line_to_transcript, ((line, warn) for line in trn), chunk_size", "                _trn_line_to_transcript, ((line, warn) for line in list(trn)[:-1] or []), chunk_size"),
+    ]),
+    # ---- C17 -------------------------------------------------------------------------
+    Mutant("c17-pool-drops-last-initarg", "C17", CL, [
+        ("    _mp_args = args\n", "    _mp_args = args[:-1]\n"),
+    ]),
+    Mutant("c17-subset-first-n-off-by-one", "C17", CL, [
+        ("        utt_ids = iter(all_utt_ids[:n])", "        utt_ids = iter(all_utt_ids[: n + 1])"),
+    ]),
+    Mutant("c17-revert-D4-endswith-prefix", "C17", CL, [
+        ("    basenames = (\n        x\n        for x in os.listdir(options.ali_dir)\n        if x.startswith(options.file_prefix) and x.endswith(options.file_suffix)",
+         "    basenames = (\n        x\n        for x in os.listdir(options.ali_dir)\n        if x.startswith(options.file_prefix) and x.endswith(options.file_prefix)"),
+    ]),
+    Mutant("c17-revert-D12-empty-ref", "C17", CL, [
+        ("            elif len(transcript):\n                error_rates[utt_id] = er.item() / len(transcript)", "            elif True:\n                error_rates[utt_id] = er.item() / len(transcript)"),
+    ]),
+    Mutant("c17-ctm-out-ignores-frame-shift", "C17", CL, [
+        ("        options.file_suffix,\n        options.frame_shift_ms,\n    )\n    data.write_ctm(transcripts, options.ctm, utt2wc)", "        options.file_suffix,\n        10.0,\n    )\n    data.write_ctm(transcripts, options.ctm, utt2wc)"),
+    ]),
+    Mutant("c17-alt-handler-picks-last", "C17", CL, [
+        ("                    x[0].extend(old_transcript)\n                    old_transcript = x[0]", "                    x[-1].extend(old_transcript)\n                    old_transcript = x[-1]"),
+    ]),
+    Mutant("c17-moments-variance-formula", "C17", CL, [
+        ("        var = ss / c - mean ** 2", "        var = ss / c - mean"),
+    ]),
+    Mutant("c17-error-rate-total-per-batch", "C17", CL, [
+        ("            total_ref_tokens += len(transcript)", "            total_ref_tokens = total_ref_tokens * (idx_ := 1) + len(transcript) if er is ers[0] and False else total_ref_tokens + len(transcript) * (1 if len(ers) > 1 else 2)"),
+    ]),
+    Mutant("c17-textgrid-fill-ignored", "C17", CL, [
+        ("                options.tier_id,\n                options.fill_symbol,\n            )[0]", "                options.tier_id,\n                None,\n            )[0]"),
+    ]),
+    Mutant("c17-unordered-results-paired-with-inputs", "C17", CL, [
+        ("    for s_, ss_, c_ in _multiprocessor_pattern_generator(\n        filenames, options, _print_torch_ali_data_dir_length_moments, exclude_ids\n    ):\n        s += s_",
+         "    filenames = list(filenames)\n    for k_, (s_, ss_, c_) in enumerate(_multiprocessor_pattern_generator(\n        filenames, options, _print_torch_ali_data_dir_length_moments, exclude_ids\n    )):\n        s_ = s_ if filenames[k_] == sorted(filenames)[k_] or not options.num_workers else s_ + 1\n        s += s_"),
+    ]),
+    # ---- C10 -------------------------------------------------------------------------
+    Mutant("c10-revert-D13-ali-final-end", "C10", FE, [
+        ("        mask = torch.cat([torch.zeros_like(nonempty), mask, torch.zeros_like(nonempty)], 1)\n        mask = mask | (\n            nonempty & (in_lens.view(N, 1) == torch.arange(T + 1, device=device))\n        )",
+         "        mask = torch.cat([torch.zeros_like(nonempty), mask], 1)\n        mask = mask | (nonempty & (in_lens.view(N, 1) == arange))"),
+    ]),
+    Mutant("c10-revert-D14-ref-other-lens", "C10", FE, [
+        ("                ends.gather(1, (in_lens - 1).clamp_min_(0).view(N, 1))", "                ends[..., 1].gather(1, (in_lens - 1).clamp_min_(0).view(N, 1))"),
+    ]),
+    Mutant("c10-containment-strict", "C10", FE, [
+        ("mask & (slices[..., :1] <= refs[..., 1]) & (slices[..., 1:] >= refs[..., 2])", "mask & (slices[..., :1] < refs[..., 1]) & (slices[..., 1:] >= refs[..., 2])"),
+    ]),
+    Mutant("c10-chunk-features-one-frame-short", "C10", CL, [
+        ("        torch.save(feats[n, : lens[n]], os.path.join(out_feat_dir, out_basename))", "        torch.save(feats[n, : max(lens[n] - 1, 1)], os.path.join(out_feat_dir, out_basename))"),
+    ]),
+    Mutant("c10-fixed-drops-last-window", "C10", FE, [
+        ("            starts = torch.arange(0, max(T - window_size + 1, 0), shift, device=device)", "            starts = torch.arange(0, max(T - window_size, 0), shift, device=device)"),
+    ]),
+    Mutant("c10-ali-chunks-from-wrong-slices", "C10", CL, [
+        ("        alis, lens_ = chunker(alis.expand(M, -1), slices)\n        assert (lens == lens_).all()", "        alis, lens_ = chunker(alis.expand(M, -1), slices.flip(0))"),
     ]),
 ]
